@@ -143,6 +143,9 @@ def prop_tokens(M, i):
     if ptype == "massaction":
         sp = pd.get("species", "")
         names = [x.strip() for x in str(sp).split("*") if x.strip() != ""] if sp not in ["0", "", None, 0] else []
+        if not names and sp not in ["0", "", None, 0]:
+            # a blank but non-empty species string falls through create_propensity's dispatch to the general MassActionPropensity class with no species
+            return ["mass", P("k"), "0", "0"]
         return ["madisp", P("k"), str(len(names))] + [str(s2i[n]) for n in names]
     if ptype == "hillpositive": return ["hp", P("k"), P("K"), P("n"), S("s1")]
     if ptype == "hillnegative": return ["hn", P("k"), P("K"), P("n"), S("s1")]
